@@ -74,7 +74,14 @@ func genExt4Cfg(r *core.Rng, tier string, t *core.Trace, wide bool) {
 			if bpg == 0 {
 				bpg = bs * 8
 			}
-			if full := r.Range(1, 5) * bpg * bs; full+3000*bs <= 300<<20 {
+			// (mostly with two groups per flex group and an even number of full groups, so that the small last
+			// group is the first of its flex group and has to hold bitmaps and inode table itself)
+			nfull := r.Range(1, 5)
+			if r.Chance(60) {
+				t.Cfg["logflex"] = 1
+				nfull = 2 * r.Range(1, 2)
+			}
+			if full := nfull * bpg * bs; full+3000*bs <= 300<<20 {
 				t.Cfg["size"] = full + bs*(1+r.Range(0, 3000))
 				if tier == "quick" && t.Cfg["size"] > 48<<20 {
 					t.Cfg["size"] = bpg*bs + bs*(1+r.Range(0, 3000))
